@@ -52,6 +52,14 @@ def run(ctx):
     if staged:
         o = state_outcomes(f, staged[0].state[1], {'self.reset_sequence': True, 'self.discard': False})
         ctx.ob('C14.reset-to-data0', 'USBInTransferManager.reset_sequence.no-send', set(o) == {None}, staged[0].loc, 'no packet is started in the cycle of the reset: %s' % sorted(map(str, o)))
+        # priority: with a packet staged, the direct load must be the LAST applicable writer (a later assignment wins)
+        from ..fsm import holds
+        asg = {'self.reset_sequence': True, 'self.discard': False}
+        live = [a for a in writers if (a.state is None or a.state == staged[0].state) and holds(a.guard, asg, default=False)]
+        win = max(live, key=lambda a: a.order) if live else None
+        ctx.ob('C14.reset-to-data0', 'USBInTransferManager.reset_sequence.staged-load-wins', win is staged[0], (win or staged[0]).loc,
+               'with a packet staged (PID already toggled for it) reset_sequence must leave the start PID itself in data_pid; the '
+               'winning writer in that state is: %s' % (q.fmt(win)[:200] if win else None))
     # (c) consumers
     ine = ctx.ir('USBStreamInEndpoint', 'endpoints.stream')
     d = ine.drivers('tx_manager.reset_sequence', exact=True)
